@@ -763,14 +763,20 @@ fn phase_group(phase: &str) -> &'static str {
 /// (which is replaced on a successful commit), with all configured checks.
 /// On an unexpected outcome `run.out.aborted` is set.
 pub fn exec_tx(run: &mut Run, db: &DB, path: &Path, script: &TxScript, ti: usize, committed_ref: &mut MBucket) {
+    exec_tx_mid(run, db, path, script, ti, committed_ref, None);
+}
+
+/// Like `exec_tx`; `mid` runs after the last operation, just before commit / drop, while the write
+/// transaction is still open (e.g. to open a reader while a writer is in flight).
+pub fn exec_tx_mid(run: &mut Run, db: &DB, path: &Path, script: &TxScript, ti: usize, committed_ref: &mut MBucket, mid: Option<&dyn Fn()>) {
     run.cur_tx = ti;
     run.cur_op = None;
     let mut committed = committed_ref.clone();
-    exec_tx_inner(run, db, path, script, &mut committed);
+    exec_tx_inner(run, db, path, script, &mut committed, mid);
     *committed_ref = committed;
 }
 
-fn exec_tx_inner(run: &mut Run, db: &DB, path: &Path, script: &TxScript, committed_out: &mut MBucket) {
+fn exec_tx_inner(run: &mut Run, db: &DB, path: &Path, script: &TxScript, committed_out: &mut MBucket, mid: Option<&dyn Fn()>) {
     let mut committed = committed_out.clone();
     // expand all byte strings first: keys must outlive the transaction
     let keys: Vec<Vec<u8>> = script
@@ -1287,6 +1293,9 @@ fn exec_tx_inner(run: &mut Run, db: &DB, path: &Path, script: &TxScript, committ
             return;
         }
         run.cur_op = Some(script.ops.len());
+        if let Some(f) = mid {
+            f();
+        }
         if script.end == End::Commit && !ended_by_misuse {
             commit_result = Some(tx.commit());
         } else {
